@@ -1511,3 +1511,161 @@ Section Exec5.
         apply (Hcont (z + n) key value); [lia|lia|exact Hv].
   Qed.
 End Exec5.
+
+Section Exec6.
+  Variable sch : schema.
+  Variable discard : bool.
+  Variable child : child_t.
+  Variable depth : Z.
+  Variable fs : list field.
+  Variable data : list byte.
+  Variable lfuel : nat.
+  Notation dlen := (Z.of_nat (length data)).
+  Hypothesis Hlen : dlen < Z.of_N two63.
+  Hypothesis Hlen8 : dlen + 8 < Z.of_N two63.
+
+  Notation exec' := (exec sch discard child depth fs data dlen lfuel).
+  Notation run' := (run_block sch discard child depth fs data dlen lfuel).
+  Notation cond' := (cond sch discard depth fs data dlen).
+  Notation eval' := (eval sch fs data dlen).
+  Notation eval_int' := (eval_int sch fs data dlen).
+  Notation atom' := (exec_atom sch child fs data dlen).
+  Notation block' := (block sch discard child depth fs data dlen lfuel).
+  Notation for_loop' := (for_loop sch discard child depth fs data dlen lfuel).
+  Notation sfx' := (sfx data).
+  Notation at_ z ss u := {| us_idx := z; us_rest := sfx data z; us_slots := ss; us_unk := u |}.
+  Variable md : msgdesc.
+  Hypothesis Hmd : m_fields md = fs.
+  Hypothesis Hfuel : (length data < lfuel)%nat.
+  Hypothesis Hchild_nil : forall m mdm bs, get_msg sch m = Some mdm -> child m VNil bs = child m (empty_msg mdm) bs.
+  Hypothesis Hchild_wt : child_wt sch child.
+
+  Notation res_of' := (res_of data).
+
+  Lemma lval_val_mval t v : lval_val (mval t v) = v.
+  Proof. destruct t; reflexivity. Qed.
+
+  Lemma item_map i kk t f s en z ss u :
+    0 <= z <= dlen -> nth_error fs i = Some f -> f_shape f = MapOf kk -> f_ty f = t -> nth_error ss i = Some s ->
+    (s = VNil \/ exists kvs, s = VMap kvs) ->
+    match t with TMsg m => exists mdm, get_msg sch m = Some mdm | TScalar _ => True end ->
+    block' (u_item_map i kk t) en (at_ z ss u) = res_of' en (field_item sch child md i f WT_BYTES (VMsg ss u) (sfx' z)).
+  Proof.
+    intros Hz Hf Hsh Hty Hs Hsv Hg.
+    assert (Hi : (i < length ss)%nat) by (apply nth_error_Some; congruence).
+    assert (Hpf : plain_field fs i = Some f) by (unfold plain_field; rewrite Hf, Hsh; reflexivity).
+    assert (Hnth : nth i ss VNil = s) by (apply nth_error_nth'; exact Hs).
+    unfold field_item. rewrite Hsh, Hty. cbn [slots_of unk_of N.eqb WT_BYTES Pos.eqb]. rewrite Hnth.
+    unfold block, u_item_map. rewrite run_msg_header by side.
+    destruct (dec_varint (sfx' z)) as [[[raw m0] r1]|] eqn:Ed; [|reflexivity].
+    destruct (dec_varint_sfx data z raw m0 r1 Hz Ed) as (-> & Hm1 & Hm2).
+    rewrite sfx_len by lia. cbv zeta.
+    destruct (Z.ltb_spec (s64 raw) 0) as [|E1]; [reflexivity|].
+    destruct (Z.ltb_spec (dlen - (z + Z.of_nat m0)) (s64 raw)) as [|E2]; [reflexivity|].
+    remember (z + Z.of_nat m0) as z1 eqn:Ez1. remember (s64 raw) as Ln eqn:EL.
+    assert (Hrest : forall ss' kvs, nth_error ss' i = Some (VMap kvs) -> (forall x, set_nth ss' i x = set_nth ss i x) ->
+              kvs = match s with VMap kvs => kvs | _ => [] end ->
+              leave en (run' [UsVar (UvMap true) (kind_gty kk);
+                              match t with TMsg m => UsDecl (UvMap false) (ENewMsg m) | TScalar k => UsVar (UvMap false) (kind_gty k) end;
+                              UsFor (CCmp OLt EIdx (u_v UvPostIndex)) (entry_body kk t);
+                              UsMapStore i (UvMap true) (UvMap false); UsIdxSet (u_v UvPostIndex)]
+                        ((UvPostIndex, LV (VInt (z1 + Ln))) :: (UvMsglen, LV (VInt Ln)) :: en) (at_ z1 ss' u)) =
+              res_of' en
+                match entry_loop child (S (length (sfx' z1))) kk t Ln (zero_scalar kk) (map_value_init (get_msg sch) t) (sfx' z1) with
+                | Ok (k, v) => Ok (VMsg (set_nth ss i (VMap (map_set match s with VMap kvs => kvs | _ => [] end k v))) u, zskipn Ln (sfx' z1))
+                | Err => Err | Panic => Panic | OutOfFuel => OutOfFuel
+                end).
+    { intros ss' kvs Hs' Hset Hkvs.
+      atom. rewrite zero_of_kind.
+      assert (Hv0 : exists en1, env_get UvPostIndex en1 = None /\ True).
+      { exists []. auto. }
+      clear Hv0.
+      assert (Hdecl : run' [match t with TMsg m => UsDecl (UvMap false) (ENewMsg m) | TScalar k => UsVar (UvMap false) (kind_gty k) end;
+                            UsFor (CCmp OLt EIdx (u_v UvPostIndex)) (entry_body kk t);
+                            UsMapStore i (UvMap true) (UvMap false); UsIdxSet (u_v UvPostIndex)]
+                        ((UvMap true, LV (zero_scalar kk)) :: (UvPostIndex, LV (VInt (z1 + Ln))) :: (UvMsglen, LV (VInt Ln)) :: en) (at_ z1 ss' u) =
+                      run' [UsFor (CCmp OLt EIdx (u_v UvPostIndex)) (entry_body kk t);
+                            UsMapStore i (UvMap true) (UvMap false); UsIdxSet (u_v UvPostIndex)]
+                        ((UvMap false, mval t (map_value_init (get_msg sch) t)) :: (UvMap true, LV (zero_scalar kk)) :: (UvPostIndex, LV (VInt (z1 + Ln))) :: (UvMsglen, LV (VInt Ln)) :: en) (at_ z1 ss' u)).
+      { destruct t as [k|m]; cbn [mval map_value_init].
+        - atom. rewrite zero_of_kind. reflexivity.
+        - destruct Hg as [mdm Hg]. atom. rewrite Hg. ev. reflexivity. }
+      rewrite Hdecl. rewrite run_for.
+      rewrite (entry_for sch discard child depth fs data lfuel Hlen Hlen8 Hchild_wt kk t (z1 + Ln) (LV (VInt Ln)) en ss' u ltac:(lia)
+                 lfuel (S (length (sfx' z1))) z1 (zero_scalar kk) (map_value_init (get_msg sch) t)).
+      - replace (z1 + Ln - z1) with Ln by lia.
+        destruct (entry_loop child (S (length (sfx' z1))) kk t Ln (zero_scalar kk) (map_value_init (get_msg sch) t) (sfx' z1)) as [[k' v']| | |]; try reflexivity.
+        atom. rewrite lval_val_mval.
+        idxset. done_env. cbn [res_of slots_of unk_of]. rewrite sfx_zskipn by lia. rewrite sfx_len by lia. rewrite Z_sub_sub.
+        rewrite Hset, Hkvs. reflexivity.
+      - lia.
+      - unfold value_ok. destruct t as [k|m]; [exact I|]. destruct Hg as [mdm Hg]. cbn [map_value_init]. rewrite Hg. apply empty_msg_wt. exact Hg.
+      - pose proof (sfx_len data z1 ltac:(lia)). lia.
+      - lia. }
+    cbn [app]. rewrite run_if. ev. hyps. ev.
+    destruct Hsv as [-> | [kvs ->]]; ev.
+    - unfold block. atom. rewrite run_nil. ev. rewrite env_restore_refl.
+      apply (Hrest _ []); [apply nth_error_set_nth; exact Hi|intro; apply set_nth_set_nth|reflexivity].
+    - apply (Hrest _ kvs); [exact Hs|reflexivity|reflexivity].
+  Qed.
+
+  Lemma case_spec i f wtN en z ss u s :
+    nth_error fs i = Some f -> field_wf (length sch) (m_oneofs md) f = true ->
+    env_get UvWireType en = Some (LV (VInt (Z.of_N wtN))) -> 0 <= z <= dlen ->
+    nth_error ss i = Some s -> wt_slot (wt_msg sch) f s = true ->
+    block' (u_case i f) en (at_ z ss u) = res_of' en (field_item sch child md i f wtN (VMsg ss u) (sfx' z)).
+  Proof.
+    intros Hf Hwf Hwt Hz Hs Hwts.
+    assert (Hg : match f_ty f with TMsg m => exists mdm, get_msg sch m = Some mdm | TScalar _ => True end).
+    { unfold field_wf in Hwf. destruct (f_ty f) as [k|m]; [exact I|].
+      apply andb_prop in Hwf. destruct Hwf as [Hwf _]. apply andb_prop in Hwf. destruct Hwf as [_ Hm].
+      apply Nat.ltb_lt in Hm. unfold get_msg. destruct (nth_error sch m) as [mdm|] eqn:E; [eauto|].
+      apply nth_error_None in E. lia. }
+    assert (Hnth : nth i ss VNil = s) by (apply nth_error_nth'; exact Hs).
+    unfold wt_slot in Hwts.
+    destruct (f_shape f) as [|p|oi|kk] eqn:Hsh.
+    - (* singular *)
+      unfold u_case, field_item. rewrite Hsh. cbn [slots_of unk_of]. rewrite Hnth.
+      assert (Hcase : forall t, f_ty f = t -> match Singular, t with Rep _, TScalar _ => False | _, _ => True end) by (intros; exact I).
+      destruct (f_ty f) as [k|m] eqn:Hty; rewrite block_if_ret_cons by discriminate; ev; rewrite Hwt; ev; rewrite (N2Z_eqb data);
+        cbn [ftype_wt]; (match goal with |- context [(wtN =? ?w)%N] => destruct (wtN =? w)%N end; [|reflexivity]); cbn [negb]; unfold u_item; rewrite Hsh, Hty.
+      + rewrite (item_scalar sch discard child depth fs data lfuel Hlen Hlen8 ISing k i f s 0%nat en z ss u Hz Hf Hs).
+        2:{ cbn [mode_ok]. split; [exact Hsh|]. intros ->. cbn [wt_elem wt_scalar] in Hwts. destruct s; try discriminate; eauto. }
+        cbn [dec_item]. destruct (dec_scalar k (sfx' z)) as [[v r]|]; reflexivity.
+      + destruct Hg as [mdm Hg].
+        rewrite (item_msg sch discard child depth fs data lfuel Hlen Hchild_nil ISing i m mdm f s 0%nat en z ss u Hz Hf Hty Hg Hs).
+        2:{ cbn [mode_ok_msg]. split; [exact Hsh|]. cbn [wt_elem] in Hwts. destruct s; try discriminate; eauto. }
+        cbn [target_of]. destruct (dec_item child (TMsg m) s (sfx' z)) as [[v r]| | |]; reflexivity.
+    - (* repeated *)
+      destruct (f_ty f) as [k|m] eqn:Hty.
+      + apply (case_rep_scalar sch discard child depth fs data lfuel Hlen Hlen8 md Hfuel i f k p wtN en z ss u s Hf Hty Hsh Hwt Hz Hs).
+        destruct s; try discriminate; eauto.
+      + unfold u_case, field_item. rewrite Hsh, Hty. cbn [slots_of unk_of]. rewrite Hnth.
+        rewrite block_if_ret_cons by discriminate; ev; rewrite Hwt; ev; rewrite (N2Z_eqb data).
+        cbn [ftype_wt]. (match goal with |- context [(wtN =? ?w)%N] => destruct (wtN =? w)%N end; [|reflexivity]); cbn [negb]; unfold u_item; rewrite Hsh, Hty.
+        destruct Hg as [mdm Hg].
+        rewrite (item_msg sch discard child depth fs data lfuel Hlen Hchild_nil IRep i m mdm f s 0%nat en z ss u Hz Hf Hty Hg Hs).
+        2:{ cbn [mode_ok_msg]. split; [eauto|]. destruct s; try discriminate; eauto. }
+        cbn [target_of]. destruct (dec_item child (TMsg m) VNil (sfx' z)) as [[v r]| | |]; try reflexivity.
+        cbn [res_of slots_of unk_of putm]. rewrite Hnth. reflexivity.
+    - (* oneof member *)
+      unfold u_case, field_item. rewrite Hsh. cbn [slots_of unk_of]. rewrite Hnth, Hmd.
+      destruct (f_ty f) as [k|m] eqn:Hty; rewrite block_if_ret_cons by discriminate; ev; rewrite Hwt; ev; rewrite (N2Z_eqb data);
+        cbn [ftype_wt]; (match goal with |- context [(wtN =? ?w)%N] => destruct (wtN =? w)%N end; [|reflexivity]); cbn [negb]; unfold u_item; rewrite Hsh, Hty.
+      + rewrite (item_scalar sch discard child depth fs data lfuel Hlen Hlen8 IOneof k i f s oi en z ss u Hz Hf Hs).
+        2:{ exact Hsh. }
+        cbn [dec_item]. destruct (dec_scalar k (sfx' z)) as [[v r]|]; reflexivity.
+      + destruct Hg as [mdm Hg].
+        rewrite (item_msg sch discard child depth fs data lfuel Hlen Hchild_nil IOneof i m mdm f s oi en z ss u Hz Hf Hty Hg Hs).
+        2:{ cbn [mode_ok_msg]. split; [exact Hsh|]. destruct s as [| | | | |q| | |]; try discriminate; auto.
+            cbn [wt_elem] in Hwts. destruct q; try discriminate; eauto. }
+        cbn [target_of]. destruct (dec_item child (TMsg m) _ (sfx' z)) as [[v r]| | |]; reflexivity.
+    - (* map *)
+      assert (Hc : u_case i f = UsIf (CCmp ONe (u_v UvWireType) (ENum (Z.of_N WT_BYTES))) (u_ret (ErWrongWire i)) :: u_item_map i kk (f_ty f)).
+      { unfold u_case, u_item. rewrite Hsh. reflexivity. }
+      rewrite Hc. rewrite block_if_ret_cons by discriminate. ev. rewrite Hwt. ev. rewrite (N2Z_eqb data).
+      destruct (N.eqb_spec wtN WT_BYTES) as [->|Hne]; cbn [negb].
+      + apply (item_map i kk (f_ty f) f s); try assumption; try reflexivity. destruct s; try discriminate; eauto.
+      + unfold field_item. rewrite Hsh. destruct (N.eqb_spec wtN WT_BYTES); [contradiction|]. reflexivity.
+  Qed.
+End Exec6.
